@@ -42,6 +42,20 @@ fn lines_of(s: &str) -> usize {
     s.matches('\n').count() + 1
 }
 
+struct Guard(String, std::time::Instant);
+impl Drop for Guard {
+    fn drop(&mut self) {
+        prof(&self.0, self.1);
+    }
+}
+static PROFILE: std::sync::Mutex<std::collections::BTreeMap<String, (u64, u128)>> = std::sync::Mutex::new(std::collections::BTreeMap::new());
+fn prof(key: &str, t0: std::time::Instant) {
+    let mut p = PROFILE.lock().unwrap();
+    let e = p.entry(key.to_string()).or_insert((0, 0));
+    e.0 += 1;
+    e.1 += t0.elapsed().as_micros();
+}
+
 fn run_case(c: &Case) -> Result<Option<(Error, Vec<(String, String)>)>, String> {
     let templates = c.templates.clone();
     let main = c.main.clone();
@@ -230,10 +244,19 @@ fn check_case(c: &Case, tier: Tier, acc: &Acc, l: &mut Local) {
             if fname.starts_with("code") && (!(c.family == "runtime" || c.family == "syntax_classic") || (n != vmax && n != 17) || (fname == "code_mixed" && tier == Tier::Quick && n == 17)) {
                 continue;
             }
+            // the largest mixed-code filler costs 0.6 s per case: the quick tier runs it for every fourth case
+            if fname == "code_mixed" && n == vmax && tier == Tier::Quick && fnv(c.name.as_bytes()) % 4 != 0 {
+                continue;
+            }
             let c2 = shifted(c, filler, n, "");
             l.evals += 1;
             let variant = format!("v{}{}:{}", fname, if n > 60000 { "_max" } else { "" }, n);
-            match run_case(&c2) {
+            let t0 = std::time::Instant::now();
+            let rc = run_case(&c2);
+            prof(&format!("{} run {}{}", c.family, fname, if n > 60000 { "_max" } else { "" }), t0);
+            let t0 = std::time::Instant::now();
+            let _g = Guard(format!("{} check {}{}", c.family, fname, if n > 60000 { "_max" } else { "" }), t0);
+            match rc {
                 Err(p) => acc.fail(mk("panic", &variant, format!("{} at {}", p, last_panic_loc()), &[])),
                 Ok(None) => acc.fail(mk("failure_disappears", &variant, "template fails without filler lines but not with them".into(), &[])),
                 Ok(Some((e, tpls))) => {
@@ -265,40 +288,50 @@ fn check_case(c: &Case, tier: Tier, acc: &Acc, l: &mut Local) {
             }
         }
     }
-    // residue: what was compiled before on the same thread must not change the report.  Each prior
-    // is compiled on a fresh OS thread with its construct on the line of the failing one, then the
-    // case runs on that thread; the full location (every chain entry, lines and ranges) must equal the
-    // one obtained on a fresh thread without a prior
+    let _gr = Guard(format!("{} residue+horizontal", c.family), std::time::Instant::now());
+    // residue: what was compiled before on the same thread must not change the report.  Each prior is
+    // compiled with its construct on the line of the failing one and the case is run straight after it
+    // on the same thread; the full location (every chain entry, lines and ranges) must equal the base
+    // one.  The worker thread's own history (every earlier case and prior) is one more start state; a
+    // truly fresh OS thread is the anchor for every run-time / classic case, for every 16th case of the
+    // other families in the quick tier and for every case in the thorough tier (thread creation is
+    // the expensive step in this sandbox, so it is not spent thirteen times per case)
     {
-        let on_fresh_thread = |prior: Option<String>, c: &Case| -> Result<Option<Loc>, String> {
-            let c = Case { family: c.family, name: c.name.clone(), templates: c.templates.clone(), main: c.main.clone(), target: c.target.clone(), expect_line: c.expect_line };
-            std::thread::spawn(move || {
-                if let Some(p) = prior {
-                    let _ = catch(|| {
-                        let env = Environment::new();
-                        let _ = env.template_from_str(&p).map(|t| t.render(minijinja::context! { xs => vec![1, 2] }).ok());
-                        let _ = env.compile_expression("ns.a if b else [c, {'d': e}]|f(g=h)");
-                    });
-                }
-                run_case(&c).map(|r| r.map(|(e, _)| loc_of(&e)))
-            })
-            .join()
-            .unwrap_or_else(|_| Err("thread died".into()))
+        let run_prior = |p: &str| {
+            let _ = catch(|| {
+                let env = Environment::new();
+                let _ = env.template_from_str(p).map(|t| t.render(minijinja::context! { xs => vec![1, 2] }).ok());
+                let _ = env.compile_expression("ns.a if b else [c, {'d': e}]|f(g=h)");
+            });
         };
-        if let Ok(Some(clean)) = on_fresh_thread(None, c) {
-            let line = clean.entries.iter().filter_map(|e| e.line).next().unwrap_or(1);
-            for (pname, stmt) in PRIORS {
-                l.evals += 1;
-                let prior = format!("{}{}", "\n".repeat(line.saturating_sub(1)), stmt);
-                match on_fresh_thread(Some(prior.clone()), c) {
-                    Ok(Some(loc)) if loc == clean => {}
-                    other => acc.fail(Failure {
-                        key: format!("location depends_on_earlier_compilation family={} prior={}", c.family, pname),
-                        case: format!("{} after {}", c.name, pname),
-                        detail: format!("on a fresh thread {:?}; after compiling {:?} on the same thread {:?}", clean, prior, other),
-                        replay: json!({"templates": c.templates, "main": c.main, "prior": prior}),
-                    }),
-                }
+        let line = base_loc.entries.iter().filter_map(|e| e.line).next().unwrap_or(1);
+        let fresh_anchor = tier == Tier::Thorough || c.family == "runtime" || c.family == "syntax_classic" || l.evals % 16 == 0;
+        if fresh_anchor {
+            let c3 = c.clone();
+            l.evals += 1;
+            let fresh = std::thread::spawn(move || run_case(&c3).map(|r| r.map(|(e, _)| loc_of(&e)))).join().unwrap_or_else(|_| Err("thread died".into()));
+            match fresh {
+                Ok(Some(ref loc)) if *loc == base_loc => {}
+                other => acc.fail(Failure {
+                    key: format!("location depends_on_earlier_compilation family={} prior=worker_history", c.family),
+                    case: format!("{} after the worker's history", c.name),
+                    detail: format!("on a fresh thread {:?}; on a thread that compiled other templates before {:?}", other, base_loc),
+                    replay: json!({"templates": c.templates, "main": c.main}),
+                }),
+            }
+        }
+        for (pname, stmt) in PRIORS {
+            l.evals += 1;
+            let prior = format!("{}{}", "\n".repeat(line.saturating_sub(1)), stmt);
+            run_prior(&prior);
+            match run_case(c).map(|r| r.map(|(e, _)| loc_of(&e))) {
+                Ok(Some(loc)) if loc == base_loc => {}
+                other => acc.fail(Failure {
+                    key: format!("location depends_on_earlier_compilation family={} prior={}", c.family, pname),
+                    case: format!("{} after {}", c.name, pname),
+                    detail: format!("base report {:?}; after compiling {:?} on the same thread {:?}", base_loc, prior, other),
+                    replay: json!({"templates": c.templates, "main": c.main, "prior": prior}),
+                }),
             }
         }
     }
@@ -530,6 +563,11 @@ pub fn main(args: Args) -> i32 {
             check_case(&cases[i as usize], args.tier, &acc, l);
         }
     });
+    if std::env::var("VERIF_PROFILE").is_ok() {
+        for (k, (n, us)) in PROFILE.lock().unwrap().iter() {
+            eprintln!("profile {:40} n={:7} total={:9.1}s mean={:8.2}ms", k, n, *us as f64 / 1e6, *us as f64 / 1e3 / *n as f64);
+        }
+    }
     acc.sample(json!({"case": cases[100].templates, "offsets": "vertical 1/17/65533 filler lines (LF and CRLF), horizontal prefixes 'abc', 'é☃', 70 000 x 'a'"}));
     acc.sample(json!({"case": cases[cases.len() - 5].templates, "expected_template": cases[cases.len() - 5].target, "expected_line": cases[cases.len() - 5].expect_line}));
     finish(
@@ -538,7 +576,7 @@ pub fn main(args: Args) -> i32 {
             level: "exploration",
             tier: args.tier,
             seed: args.seed,
-            rule: "syntax errors: a corpus of 29 hand-written templates covering every tag and literal form plus every 13th depth-1 generator program, truncated at every character boundary (also with multi-byte text in front) and with 12 stray tokens inserted at every (quick: every other) boundary, plus 37 classic faults; run-time errors: 32 failing constructs (eleven of them raised by instructions without a span of their own, five of those after a nested sub-expression) x 34 placements (plain, for, if/else, with, macro, call block, set block, filter block, autoescape, child block, parent block, super, include, include in loop, imported macro, import top level, recursive loop, three-level inheritance, after earlier statements of the same template (namespace attribute assignments, unpacking, macros and call blocks, filter and set blocks, nested expressions, if chains), and after multi-line string literals / tags / comments / raw blocks / CRLF lines) with the expected template and line computed from the placement; every failing case is re-run with 1/17/65 533 (thorough also 2) filler lines of text above (LF and CRLF), run-time errors and classic faults also with 17 and 65 533 lines of code above (print statements; if + attribute + filter + comment), which puts the failing construct behind up to 5e5 instructions, and with 3-byte, multi-byte and 70 000-byte prefixes; oracle: located name+line inside the named source for the error and every located cause, kind/detail/name unchanged and line shifted by exactly N, ranges in bounds, on char boundaries, equal to the named template's source and shifted by the inserted byte count, all five formatting forms succeed; residue: every failing case is re-run on a fresh OS thread after each of 12 prior templates (one per statement kind, three failing to compile half way) was compiled on that thread with its construct on the failing line, and the full location (every chain entry, lines, ranges) must equal the one from a fresh thread without a prior. distinct non-trivial = distinct failing template sets".into(),
+            rule: "syntax errors: a corpus of 29 hand-written templates covering every tag and literal form plus every 13th depth-1 generator program, truncated at every character boundary (also with multi-byte text in front) and with 12 stray tokens inserted at every (quick: every other) boundary, plus 37 classic faults; run-time errors: 32 failing constructs (eleven of them raised by instructions without a span of their own, five of those after a nested sub-expression) x 34 placements (plain, for, if/else, with, macro, call block, set block, filter block, autoescape, child block, parent block, super, include, include in loop, imported macro, import top level, recursive loop, three-level inheritance, after earlier statements of the same template (namespace attribute assignments, unpacking, macros and call blocks, filter and set blocks, nested expressions, if chains), and after multi-line string literals / tags / comments / raw blocks / CRLF lines) with the expected template and line computed from the placement; every failing case is re-run with 1/17/65 533 (thorough also 2) filler lines of text above (LF and CRLF), run-time errors and classic faults also with 17 and 65 533 lines of code above (print statements; if + attribute + filter + comment, the largest of those for every fourth case in the quick tier), which puts the failing construct behind up to 5e5 instructions, and with 3-byte, multi-byte and 70 000-byte prefixes; oracle: located name+line inside the named source for the error and every located cause, kind/detail/name unchanged and line shifted by exactly N, ranges in bounds, on char boundaries, equal to the named template's source and shifted by the inserted byte count, all five formatting forms succeed; residue: every failing case is re-run straight after each of 12 prior templates (one per statement kind, three failing to compile half way) was compiled on the same thread with its construct on the failing line, and the full location (every chain entry, lines, ranges) must equal the base one; the worker thread's accumulated history is a further start state, anchored by a run on a fresh OS thread for every run-time and classic case, every 16th other case (thorough: every case). distinct non-trivial = distinct failing template sets".into(),
             exhaustive: true,
             bound: json!({"vertical": [1, 2, 17, 65533], "horizontal": [3, 5, 70000]}),
             assumptions: vec!["Strict undefined mode so that undefined reads are errors".into(), "cases that compile and render successfully are skipped (counted in the outcome histogram)".into()],
